@@ -374,4 +374,119 @@ Proof.
   apply (in_combine_tl_nth _ []) in Hp as (i & Hi & -> & ->). rewrite kmers_len in Hi.
   rewrite !kmers_nth by lia. destruct (inner_fm n i Hn ltac:(lia)) as [Hfm Hj]. now apply merge_intro.
 Qed.
+
+(* ---- merges are symmetric under reverse complement ---- *)
+Lemma fm_rc x y : st = false -> fm x y -> fm (rc y) (rc x).
+Proof.
+  intros Hs Hfm. destruct (fm_wf_y x y Hfm) as (Wy & Ly & Nx & Ny).
+  destruct Hfm as (W & Lx & Px & Py & Hne & b & ex & ey & Hb & Ey & Hx & Hy & Nxx & Nyy & Hhx & Hhy).
+  assert (Hc4 : (hd 0 x < 4)%N) by (apply wf_hd; auto).
+  pose proof (oexts_lt_ _ _ Hx) as Lex. pose proof (oexts_lt_ _ _ Hy) as Ley.
+  assert (Hxb : extend y (hd 0%N x) DLeft = x).
+  { rewrite Ey. exact (KmerAlgebra.extend_back x b DRight Nx). }
+  repeat split.
+  - apply rc_wf.
+  - now rewrite rc_length.
+  - now rewrite kpal_rc.
+  - now rewrite kpal_rc.
+  - rewrite !cn_rc_ by auto. auto.
+  - exists (comp (hd 0%N x)), (e_rc ey), (e_rc ex). repeat split.
+    + apply comp_lt4.
+    + rewrite <- Hxb at 1. now rewrite rc_extend.
+    + apply (oexts_rc pay K st T Hok Hsym Hpal); auto. now apply (kpal_false_ne st).
+    + apply (oexts_rc pay K st T Hok Hsym Hpal); auto. now apply (kpal_false_ne st).
+    + now rewrite num_ext_rc.
+    + now rewrite num_ext_rc.
+    + rewrite (has_ext_rc' ey DRight) by auto using comp_lt4. cbn [dflip dirb]. now rewrite comp_involutive.
+    + assert (E : hd 0%N (rc y) = comp b).
+      { change (hd 0%N (rc y)) with (outer (rc y) DLeft). rewrite outer_rc by exact Ny. cbn [dflip outer].
+        rewrite Ey. cbn [extend]. unfold extend_right. now rewrite last_last. }
+      rewrite E, (has_ext_rc' ex DLeft) by auto using comp_lt4. cbn [dflip dirb]. now rewrite comp_involutive.
+Qed.
+
+(* the merge leaving / entering an inner occurrence is the step to its neighbour in the node *)
+Lemma fm_next n p y : In n g -> p + S K <= length (nd_seq n) -> fm (kmer_at K (nd_seq n) p) y ->
+  y = kmer_at K (nd_seq n) (S p).
+Proof.
+  intros Hn Hp (W & Lx & _ & _ & _ & b & ex & ey & Hb & -> & Hx & _ & Nxx & _ & Hhx & _).
+  destruct (node_len_wf n Hn) as [L Ws].
+  destruct (node_step n p Hn Hp) as [(ex' & ey' & Hx' & _ & Hhx' & _) _].
+  rewrite Hx in Hx'. injection Hx' as <-.
+  rewrite kmer_at_last in Hhx' by lia. replace (S p + K - 1) with (p + K) in Hhx' by lia.
+  rewrite (unique_ext ex true b _ (oexts_lt_ _ _ Hx) Nxx Hb (wf_nth_ _ _ Ws) Hhx Hhx'). symmetry. now apply kmer_at_next.
+Qed.
+Lemma fm_prev n q x : In n g -> q + S K <= length (nd_seq n) -> fm x (kmer_at K (nd_seq n) (S q)) ->
+  x = kmer_at K (nd_seq n) q.
+Proof.
+  intros Hn Hq Hfm. destruct (fm_wf_y _ _ Hfm) as (_ & _ & Nx & _).
+  destruct Hfm as (W & Lx & _ & _ & _ & b & ex & ey & Hb & Ey & _ & Hy & _ & Nyy & _ & Hhy).
+  destruct (node_len_wf n Hn) as [L Ws].
+  destruct (node_step n q Hn Hq) as [(ex' & ey' & _ & Hy' & _ & Hhy') _].
+  rewrite Hy in Hy'. injection Hy' as <-.
+  destruct (node_win_ok n q Hn ltac:(lia)) as (Lz & Wz & Nz & _).
+  assert (E : hd 0%N x = hd 0%N (kmer_at K (nd_seq n) q)).
+  { apply (unique_ext ey false); auto using (oexts_lt_ _ _ Hy); apply wf_hd; auto. }
+  pose proof (KmerAlgebra.extend_back x b DRight Nx) as B1. rewrite <- Ey in B1. cbn [dflip outer] in B1.
+  pose proof (KmerAlgebra.extend_back (kmer_at K (nd_seq n) q) (nth (q + K) (nd_seq n) 0%N) DRight Nz) as B2.
+  rewrite <- kmer_at_next in B2 by lia. cbn [dflip outer] in B2. rewrite <- B1, <- B2, E. reflexivity.
+Qed.
+
+Lemma closing_pair n : In n g ->
+  (last (kmers K (nd_seq n)) [], hd [] (kmers K (nd_seq n))) =
+  (kmer_at K (nd_seq n) (length (nd_seq n) - K), kmer_at K (nd_seq n) 0).
+Proof.
+  intro Hn. destruct (node_len_wf n Hn) as [L W].
+  rewrite <- (last_kmer_last K HK K _ HK L), <- (first_kmer_hd K HK K _ HK L). reflexivity.
+Qed.
+Lemma in_node_kmers n w : In w (node_kmers K st n) -> exists q, q + K <= length (nd_seq n) /\ w = cn st (kmer_at K (nd_seq n) q).
+Proof.
+  unfold node_kmers. intro H. apply in_map_iff in H as [y [<- Hy]]. apply kmers_in in Hy as [q [Hq ->]]. eauto.
+Qed.
+(* a merge leaving an occurrence x of node n towards a k-mer of the same node is a step of n, or closes n *)
+Lemma fm_in_node n x y : In n g -> fm x y -> In x (kmers K (nd_seq n)) -> In (cn st y) (node_kmers K st n) ->
+  In (x, y) (node_pairs K n).
+Proof.
+  intros Hn Hfm Hx Hy. destruct (node_len_wf n Hn) as [L Ws]. destruct (fm_wf_y _ _ Hfm) as (Wy & Ly & Nx & Ny).
+  apply kmers_in in Hx as [p [Hp ->]]. unfold node_pairs. apply in_or_app.
+  destruct (Nat.eq_dec (p + K) (length (nd_seq n))) as [Hl|Hl].
+  2:{ left. rewrite (fm_next n p y Hn ltac:(lia) Hfm). unfold inner_pairs.
+      pose proof (in_combine_tl (kmers K (nd_seq n)) [] p) as H. rewrite kmers_len, !kmers_nth in H by lia. apply H. lia. }
+  right. cbv zeta. rewrite (closing_pair n Hn). replace (length (nd_seq n) - K) with p by lia. left. f_equal.
+  apply in_node_kmers in Hy as [q [Hq Ey]].
+  destruct (node_win_ok n q Hn Hq) as (Lz & Wz & Nz & _).
+  symmetry in Ey. apply cn_eq_cases in Ey; auto. destruct Ey as [Ey|[Hs Ey]].
+  - destruct q as [|q']; [exact Ey|]. exfalso. rewrite <- Ey in Hfm.
+    pose proof (fm_prev n q' _ Hn ltac:(lia) Hfm) as E. apply (f_equal (cn st)) in E. apply (win_inj n p q' Hn) in E; lia.
+  - exfalso. pose proof (fm_rc _ _ Hs Hfm) as Hr. rewrite <- Ey in Hr.
+    destruct Hfm as (W & _ & Px & _ & Hne & _).
+    destruct (Nat.eq_dec (q + K) (length (nd_seq n))) as [Hql|Hql].
+    + assert (q = p) by lia. subst q. apply Hne. rewrite Ey. now rewrite cn_rc_.
+    + pose proof (fm_next n q _ Hn ltac:(lia) Hr) as E.
+      assert (E' : cn st (kmer_at K (nd_seq n) p) = cn st (kmer_at K (nd_seq n) (S q))) by (rewrite <- E; now rewrite cn_rc_).
+      apply (win_inj n p (S q) Hn) in E'; try lia. subst p. symmetry in E. now apply (kpal_false_ne st _ Hs Px).
+Qed.
+(* ... and a merge entering an occurrence y of node n from a k-mer of the same node *)
+Lemma fm_in_node' n x y : In n g -> fm x y -> In y (kmers K (nd_seq n)) -> In (cn st x) (node_kmers K st n) ->
+  In (x, y) (node_pairs K n).
+Proof.
+  intros Hn Hfm Hy Hx. destruct (node_len_wf n Hn) as [L Ws]. destruct (fm_wf_y _ _ Hfm) as (Wy & Ly & Nx & Ny).
+  apply kmers_in in Hy as [q [Hq ->]]. unfold node_pairs. apply in_or_app.
+  destruct q as [|q'].
+  2:{ left. rewrite (fm_prev n q' x Hn ltac:(lia) Hfm). unfold inner_pairs.
+      pose proof (in_combine_tl (kmers K (nd_seq n)) [] q') as H. rewrite kmers_len, !kmers_nth in H by lia. apply H. lia. }
+  right. cbv zeta. rewrite (closing_pair n Hn). left. f_equal.
+  apply in_node_kmers in Hx as [p [Hp Ex]].
+  destruct (node_win_ok n p Hn Hp) as (Lz & Wz & Nz & _).
+  pose proof Hfm as (W & _ & Px & Py & Hne & _).
+  symmetry in Ex. apply cn_eq_cases in Ex; auto. destruct Ex as [Ex|[Hs Ex]].
+  - destruct (Nat.eq_dec (p + K) (length (nd_seq n))) as [Hl|Hl]; [rewrite <- Ex; f_equal; lia|]. exfalso.
+    rewrite <- Ex in Hfm. pose proof (fm_next n p _ Hn ltac:(lia) Hfm) as E. apply (f_equal (cn st)) in E.
+    apply (win_inj n 0 (S p) Hn) in E; lia.
+  - exfalso. pose proof (fm_rc _ _ Hs Hfm) as Hr. rewrite <- Ex in Hr.
+    destruct p as [|p'].
+    + apply Hne. rewrite <- (cn_rc_ st x) by auto. now rewrite <- Ex.
+    + pose proof (fm_prev n p' _ Hn ltac:(lia) Hr) as E.
+      assert (E' : cn st (kmer_at K (nd_seq n) 0) = cn st (kmer_at K (nd_seq n) p')) by (rewrite <- E; now rewrite cn_rc_).
+      apply (win_inj n 0 p' Hn) in E'; try lia. subst p'. now apply (kpal_false_ne st _ Hs Py).
+Qed.
 End Graph.
